@@ -218,8 +218,9 @@ def r4(ctx):
     for q in (f"{SC}.predict", f"{SC}.predict_single_drug", f"{SCI}.SparseDrugComboInteractionMCMCSample.predict_conditional_mean"):
         f = ctx.fn(q)
         raw = []
+        fenv = single_defs(f.node)
         for n in walk_own(f.node):
-            if isinstance(n, ast.Subscript) and isinstance(n.value, ast.Attribute) and n.value.attr in ("V0", "V1", "V2") and "treatment_ids" in U(n.slice):
+            if isinstance(n, ast.Subscript) and isinstance(n.value, ast.Attribute) and n.value.attr in ("V0", "V1", "V2") and "treatment_ids" in U(inline(n.slice, fenv)):
                 raw.append(U(n)[:60])
         nh = len([c for c in calls(f.node) if attr_tail(c) == HELPER])
         ctx.check("R4", f"{f.site()}::gathers-through-helper", not raw and nh >= 1, f"{nh} treatment gathers, all through the zeroing helper",
